@@ -349,14 +349,14 @@ def run_strings(acc, alpha_name, nt, maxlen, prefix):
     ureg = regs.default(nt)
     alpha = A1 if alpha_name == "A1" else A2
     leaf_num, leaf_name = leafs(ureg, nt)
-    signal.signal(signal.SIGALRM, _alarm)
+    signal.signal(signal.SIGVTALRM, _alarm)
     skipped = 0
     for tokens in token_strings(alpha, maxlen, prefix):
         if has_plus_minus(tokens):
             skipped += 1
             continue
         src = explicit(tokens)
-        signal.setitimer(signal.ITIMER_REAL, 20)
+        signal.setitimer(signal.ITIMER_VIRTUAL, 20)
         try:
             ref = ref_eval(src, leaf_num, leaf_name)
             if ref[0] == "skip":
@@ -371,7 +371,7 @@ def run_strings(acc, alpha_name, nt, maxlen, prefix):
         except Hang:
             acc.violation(["token-string", "parse_expression", "does-not-terminate", nt], {"registry": nt, "tokens": tokens}, "termination", "timeout 20 s")
         finally:
-            signal.setitimer(signal.ITIMER_REAL, 0)
+            signal.setitimer(signal.ITIMER_VIRTUAL, 0)
     acc.count("strings skipped (+/- operator, guard, unsupported node)", skipped)
     acc.sample({"clause": "token-string", "alphabet": alpha_name, "registry": nt, "tokens": (list(prefix) if prefix else []) + ["**", "-", "2"], "python_source": explicit((list(prefix) if prefix else []) + ["**", "-", "2"])})
 
@@ -379,14 +379,14 @@ def run_strings(acc, alpha_name, nt, maxlen, prefix):
 def run_variants(acc, nt, maxlen, prefix):
     ureg = regs.default(nt)
     leaf_num, leaf_name = leafs(ureg, nt)
-    signal.signal(signal.SIGALRM, _alarm)
+    signal.signal(signal.SIGVTALRM, _alarm)
     for tokens in token_strings(A2, maxlen, prefix):
         if has_plus_minus(tokens):
             continue
         vs = spelling_variants(tokens)
         if not vs:
             continue
-        signal.setitimer(signal.ITIMER_REAL, 20)
+        signal.setitimer(signal.ITIMER_VIRTUAL, 20)
         try:
             ref = ref_eval(explicit(tokens), leaf_num, leaf_name)
             if ref[0] in ("skip", "syntax"):
@@ -405,7 +405,7 @@ def run_variants(acc, nt, maxlen, prefix):
         except Hang:
             acc.violation(["spelling-variant", "parse_expression", "does-not-terminate", nt], {"tokens": tokens}, "termination", "timeout")
         finally:
-            signal.setitimer(signal.ITIMER_REAL, 0)
+            signal.setitimer(signal.ITIMER_VIRTUAL, 0)
     acc.sample({"clause": "spelling-variant", "tokens": ["m", "**", "2", "/", "s"], "variants": [v for _, v in spelling_variants(["m", "**", "2", "/", "s"])]})
     # the same sweep with a unit whose symbol is a non-ASCII word character (s -> the ohm sign): the
     # rewrites are defined on "words", and a word is not only [A-Za-z0-9_]
@@ -413,7 +413,7 @@ def run_variants(acc, nt, maxlen, prefix):
     for tokens in token_strings(A2, maxlen, prefix):
         if has_plus_minus(tokens) or "s" not in tokens:
             continue
-        signal.setitimer(signal.ITIMER_REAL, 20)
+        signal.setitimer(signal.ITIMER_VIRTUAL, 20)
         try:
             ref = ref_eval(explicit(tokens), leaf_num, leaf_name)
             if ref[0] in ("skip", "syntax"):
@@ -428,7 +428,7 @@ def run_variants(acc, nt, maxlen, prefix):
         except Hang:
             acc.violation(["unicode-name", "parse_expression", "does-not-terminate", nt], {"tokens": tokens}, "termination", "timeout")
         finally:
-            signal.setitimer(signal.ITIMER_REAL, 0)
+            signal.setitimer(signal.ITIMER_VIRTUAL, 0)
 
 
 # ----------------------------------------------------------------------------- three-operand trees x every spelling
@@ -482,11 +482,11 @@ def run_trees(acc, nt, tier, idx):
     leaf_num, leaf_name = leafs(ureg, nt)
     firsts = operand_forms(True, True)
     first = firsts[idx]
-    signal.signal(signal.SIGALRM, _alarm)
+    signal.signal(signal.SIGVTALRM, _alarm)
     acc.dim("first-operand forms", len(firsts))
     cache = {}
     for layout, st, py in tree_strings(first, tier):
-        signal.setitimer(signal.ITIMER_REAL, 20)
+        signal.setitimer(signal.ITIMER_VIRTUAL, 20)
         try:
             if py not in cache:
                 cache[py] = ref_eval(py, leaf_num, leaf_name)
@@ -501,7 +501,7 @@ def run_trees(acc, nt, tier, idx):
         except Hang:
             acc.violation(["tree", "parse_expression", "does-not-terminate", nt], {"string": st}, "termination", "timeout")
         finally:
-            signal.setitimer(signal.ITIMER_REAL, 0)
+            signal.setitimer(signal.ITIMER_VIRTUAL, 0)
     acc.sample({"clause": "tree", "registry": nt, "first": first[0], "example": "6/\u03a9 (3)  ==  6 / \u03a9 * (3)"})
 
 
@@ -510,7 +510,7 @@ def run_parserhelper(acc, maxlen, prefix):
     from pint.util import ParserHelper
 
     alpha = [t for t in A2 if t not in ("+", "-", "//")] + ["-"]
-    signal.signal(signal.SIGALRM, _alarm)
+    signal.signal(signal.SIGVTALRM, _alarm)
     for nt in ("float", "Fraction"):
         T = NIT[nt]
 
